@@ -375,7 +375,7 @@ def zic_postprocessing_mechanism(w, p, prop, zone_info, zsegs):
 
 
 def check_program(v, prog_id, p, workdir, scopes=("extended", "basic"), targets=("python", "arduino"), start_year=2000,
-                  until_year=2050, grid=5, nbhd=120, py_grid_s=6 * 3600 + 1800, stats=None, selfcheck_zones=6, expect_percent_z=(), san=False, prop="c03", strict=False):
+                  until_year=2050, grid=5, nbhd=120, py_grid_s=6 * 3600 + 1800, stats=None, selfcheck_zones=6, expect_percent_z=(), san=False, prop="c03", strict=False, granularity=None):
     """Returns a dict of statistics; violations go to `v`."""
     st = stats if stats is not None else {}
     workdir = Path(workdir)
@@ -386,7 +386,8 @@ def check_program(v, prog_id, p, workdir, scopes=("extended", "basic"), targets=
     for scope in scopes:
         fails_before = len(tzpipe.CONTRACT_FAILS)
         try:
-            c = tzpipe.compile_source(indir, scope, start_year, until_year, strict=strict)
+            c = tzpipe.compile_source(indir, scope, start_year, until_year, strict=strict,
+                                      **({"until_at_granularity": granularity, "offset_granularity": granularity} if granularity else {}))
         except tzpipe.CompilerDied as e:
             v.violation("%s:compiler-died:%s:%s" % (prop, e.stage, type(e.exc).__name__),
                         "the compiler raised/exited on a source that zic accepts instead of listing the input as removed",
